@@ -1,7 +1,7 @@
 (* Entry points of the executable model, by name. One dispatcher so that the OCaml driver and
    the in-Coq case files need no per-function glue. *)
 From Coq Require Import ZArith NArith List String Bool.
-From Sia Require Import Prim.Result Prim.Tok Currency.Model Merkle.Tree Merkle.Forest Merkle.Acc Merkle.Rhp Policy.Model Pow.Model Codec.Schema Codec.Shape Codec.Irregular Gen.Schemas Ledger.Types Ledger.Mid Ledger.Validate Ledger.Apply Hash.Ids Merkle.Multi Gateway.Outline.
+From Sia Require Import Prim.Result Prim.Tok Currency.Model Merkle.Tree Merkle.Forest Merkle.Acc Merkle.Rhp Policy.Model Pow.Model Codec.Schema Codec.Shape Codec.Irregular Gen.Schemas Ledger.Types Ledger.Mid Ledger.Validate Ledger.Apply Hash.Ids Merkle.Multi Gateway.Outline Rhp4.Model.
 Import ListNotations.
 Open Scope string_scope.
 Open Scope list_scope.
@@ -99,6 +99,56 @@ Section Dispatch.
         (map (fun e => tbool (match o_txn bytes bytes e with Some _ => true | None => false end)) o
           ++ TZ (-1) :: map TB (missing bytes bytes o))%list)
         (run_parser (let* b := plist pB in let* om := plist pB in let* pool := plist pB in pret (b, om, pool)) args)
+    else None.
+
+
+  (* ---- C17: RHP4 constructors ---- *)
+  Definition p_fcnum : parser fc2 :=
+    let* cap := pZ in let* fs := pZ in let* ph := pZ in let* eh := pZ in let* rv := pZ in let* hv := pZ in
+    let* mh := pZ in let* tc := pZ in let* rn := pZ in
+    pret {| c_capacity := cap; c_filesize := fs; c_root := []; c_proof_height := ph; c_exp_height := eh;
+            c_renter := {| sco_value := rv; sco_addr := [] |}; c_host := {| sco_value := hv; sco_addr := [] |};
+            c_missed_host := mh; c_collateral := tc; c_renter_key := []; c_host_key := []; c_revnum := rn;
+            c_renter_sig := []; c_host_sig := []; c_sighash := []; c_tax := 0 |}.
+  Definition t_fcnum (fc : fc2) : list tok :=
+    [TZ (c_capacity fc); TZ (c_filesize fc); TZ (c_proof_height fc); TZ (c_exp_height fc); TZ (sco_value (c_renter fc));
+     TZ (sco_value (c_host fc)); TZ (c_missed_host fc); TZ (c_collateral fc); TZ (c_revnum fc)].
+  Definition p_prices : parser prices :=
+    let* a := pZ in let* b := pZ in let* c := pZ in let* d := pZ in let* e := pZ in let* f := pZ in let* g := pZ in
+    pret {| pr_contract := a; pr_collateral := b; pr_storage := c; pr_ingress := d; pr_egress := e; pr_free := f; pr_tip := g |}.
+  Definition t_usage (u : usage) : list tok :=
+    [TZ (u_rpc u); TZ (u_storage u); TZ (u_egress u); TZ (u_ingress u); TZ (u_fund u); TZ (u_risked u)].
+  Definition t_R {A} (f : A -> list tok) (r : R A) : list tok :=
+    match r with Ok a => (TZ 0 :: f a)%list | Err c => [TZ 1; TZ c] | Panic _ => [TZ 2] end.
+  Definition api_c17 (name : string) (args : list tok) : option (list tok) :=
+    if name =? "c17.revise" then
+      option_map (fun '(k, fc, p, n) =>
+        t_R (fun x => (t_fcnum (fst x) ++ t_usage (snd x))%list)
+          (match k with
+           | 0%Z => revise_append fc p [] n
+           | 1%Z => revise_free fc p [] n
+           | 2%Z => revise_roots fc p n
+           | _ => revise_fund fc n
+           end)) (run_parser (let* k := pZ in let* fc := p_fcnum in let* p := p_prices in let* n := pZ in pret (k, fc, p, n)) args)
+    else if name =? "c17.new" then
+      option_map (fun '(p, al, co, ph, fee) =>
+        t_R (fun x => (t_fcnum (fst x) ++ t_usage (snd x) ++ t_R (fun c => [TZ (fst c); TZ (snd c)]) (contract_cost (fst x) fee))%list)
+          (new_contract p al co ph [] [] [] []))
+        (run_parser (let* p := p_prices in let* al := pZ in let* co := pZ in let* ph := pZ in let* fee := pZ in pret (p, al, co, ph, fee)) args)
+    else if name =? "c17.renew" then
+      option_map (fun '(k, fc, p, al, co, ph, fee) =>
+        let r := match k with 0%Z => renew_contract fc p [] al co ph | 1%Z => refresh_partial fc p [] al co | _ => refresh_full fc p [] al co end in
+        t_R (fun x => let rn := fst x in
+               ([TZ (sco_value (rn_final_renter rn)); TZ (sco_value (rn_final_host rn)); TZ (rn_renter_rollover rn); TZ (rn_host_rollover rn)]
+                ++ t_fcnum (rn_new rn) ++ t_usage (snd x)
+                ++ t_R (fun c => [TZ (fst c); TZ (snd c)]) (match k with 0%Z => renewal_cost rn fee | _ => refresh_cost p rn fee end))%list) r)
+        (run_parser (let* k := pZ in let* fc := p_fcnum in let* p := p_prices in let* al := pZ in let* co := pZ in let* ph := pZ in
+                     let* fee := pZ in pret (k, fc, p, al, co, ph, fee)) args)
+    else if name =? "c17.tax" then
+      option_map (fun t => [TZ (tax_adjusted_payout t); TZ (fc_tax (tax_adjusted_payout t))]) (run_parser pZ args)
+    else if name =? "c17.minmax" then
+      option_map (fun '(p, x) => (t_R (fun v => [TZ v]) (min_renter_allowance p x) ++ t_R (fun v => [TZ v]) (max_host_collateral p x))%list)
+        (run_parser (let* p := p_prices in let* x := pZ in pret (p, x)) args)
     else None.
 
   (* ---- C14: spend policies ---- *)
@@ -453,6 +503,9 @@ Section Dispatch.
     match api_c18 name args with
     | Some r => r
     | None =>
+    match api_c17 name args with
+    | Some r => r
+    | None =>
     match name, args with
     | "hash", [TB b] => [TB (H b)]
     | "c12.derive", [TB nm; TB i; TZ k] => [TB (derive H nm (id_index_args i (Z.to_N k)))]
@@ -462,5 +515,5 @@ Section Dispatch.
     | "c05.leafhash", [TB e; TZ i; TZ s] => [TB (leaf_hash H (mkLeaf e (Z.to_N i) (negb (Z.eqb s 0))))]
     | "c05.proofroot", TB x :: TZ i :: ps => [TB (proofRootN H x (Z.to_N i) (List.concat (map (fun t => match t with TB b => [b] | _ => [] end) ps)))]
     | _, _ => bad_args
-    end end end end end end end end.
+    end end end end end end end end end.
 End Dispatch.
